@@ -272,3 +272,17 @@ package bridgesync
 //@   requires c != nil && c.GlobalIndex != nil && client != nil && logger != nil
 //@   modifies region("bridgesync.Claim.ProofLocalExitRoot"), region("bridgesync.Claim.ProofRollupExitRoot"), region("bridgesync.Claim.MainnetExitRoot"), region("bridgesync.Claim.RollupExitRoot"), region("bridgesync.Claim.DestinationNetwork"), region("bridgesync.Claim.Metadata"), region("bridgesync.Claim.GlobalExitRoot"), region("bridgesync.Claim.FromAddress"), region("bridgesync.Claim.IsMessage")
 //@   ensures[what-the-event-said-is-untouched] c.GlobalIndex == old(c.GlobalIndex) && c.BlockNum == old(c.BlockNum) && c.BlockPos == old(c.BlockPos) && c.OriginNetwork == old(c.OriginNetwork) && c.OriginAddress == old(c.OriginAddress) && c.DestinationAddress == old(c.DestinationAddress) && c.Amount == old(c.Amount) && c.TxHash == old(c.TxHash)
+
+// the pre-Etrog claim event carries a 32-bit leaf index instead of a global index: it becomes the global index as is
+//@ ghost var parsedClaimV1 *polygonzkevmbridge.PolygonzkevmbridgeClaimEvent
+//@ extern (*github.com/0xPolygon/cdk-contracts-tooling/contracts/fep/etrog/polygonzkevmbridge.PolygonzkevmbridgeFilterer).ParseClaimEvent (f, log)
+//@   modifies parsedClaimV1
+//@   ensures result1 != nil ==> result0 == nil
+//@   ensures result1 == nil ==> result0 != nil && parsedClaimV1 == result0
+//@ func buildClaimEventHandlerPreEtrog$1
+//@   props C03 C05 C20
+//@   requires b != nil && contract != nil && (syncFullClaims ==> client != nil && logger != nil)
+//@   modifies b.Events, parsedClaimV1, region("bridgesync.Claim.ProofLocalExitRoot"), region("bridgesync.Claim.ProofRollupExitRoot"), region("bridgesync.Claim.MainnetExitRoot"), region("bridgesync.Claim.RollupExitRoot"), region("bridgesync.Claim.DestinationNetwork"), region("bridgesync.Claim.Metadata"), region("bridgesync.Claim.GlobalExitRoot"), region("bridgesync.Claim.FromAddress"), region("bridgesync.Claim.IsMessage")
+//@   ensures[failed-decode-adds-nothing] result != nil ==> len(b.Events) == old(len(b.Events))
+//@   ensures[one-event-per-log] result == nil ==> len(b.Events) == old(len(b.Events)) + 1 && forall(k, 0, old(len(b.Events)), b.Events[k] == old(b.Events[k]))
+//@   ensures[the-claim-is-the-decoded-event-at-the-logs-position] result == nil ==> typeIs(b.Events[len(b.Events) - 1], Event) && unbox(b.Events[len(b.Events) - 1], Event).Claim != nil && unbox(b.Events[len(b.Events) - 1], Event).Bridge == nil && unbox(b.Events[len(b.Events) - 1], Event).Claim.BlockNum == b.Num && unbox(b.Events[len(b.Events) - 1], Event).Claim.BlockPos == l.Index && unbox(b.Events[len(b.Events) - 1], Event).Claim.GlobalIndex != nil && bigval(unbox(b.Events[len(b.Events) - 1], Event).Claim.GlobalIndex) == parsedClaimV1.Index && unbox(b.Events[len(b.Events) - 1], Event).Claim.OriginNetwork == parsedClaimV1.OriginNetwork && unbox(b.Events[len(b.Events) - 1], Event).Claim.OriginAddress == parsedClaimV1.OriginAddress && unbox(b.Events[len(b.Events) - 1], Event).Claim.DestinationAddress == parsedClaimV1.DestinationAddress && unbox(b.Events[len(b.Events) - 1], Event).Claim.Amount == parsedClaimV1.Amount
